@@ -267,6 +267,8 @@ class ElementList(MutableSequence):
         if self._can_add_child(child):
             if self.element == child.parent:
                 self._remove_from_traversal_index(child)
+                if child in self.list:  # it is already a child of the element
+                    return
                 self.list.append(child)
                 try:
                     self.indexes[child.name].append(child)
@@ -773,10 +775,19 @@ class Element(object):
         return self._parent
 
     def _set_parent(self, parent):
+        old_parent = getattr(self, '_parent', None)
         self._parent = parent
         if parent is not None:
             self.traversal_parent = None
-            self.parent.add(self)
+            try:
+                self.parent.add(self)
+            except Exception:
+                # the new parent has refused the element, which still belongs to the previous one
+                self._parent = old_parent
+                raise
+        if old_parent is not None and old_parent is not parent and self in old_parent.children.list:
+            # an element can't be a child of two parents: it has been moved (or detached)
+            old_parent.children.remove(self)
 
     parent = property(_get_parent, _set_parent,
                       doc="The parent :class:`Element <hl7apy.core.Element>` of this one")
